@@ -117,7 +117,7 @@ def mappings_invariant(asem, slist, I):
     return z3.ForAll([i], z3.Implies(z3.And(0 <= i, i < ln(slist.term)), z3.And(wf_mapping(m, e), valid_mapping(asem, e, I))), patterns=[e])
 
 
-@unit("C08.superseeded", "C08", "ngo.cleanup:CleanupTranslator._superseeded")
+@unit("C08.superseeded", "C08", "ngo.cleanup:CleanupTranslator._superseeded", fallback={"mirror": "corpus", "trait": "cleanup"})
 def superseeded(ctx):
     """_superseeded(lhs, rhs) == True  =>  in every interpretation in which all recorded mappings are valid,
     and for every variable assignment, lhs holds implies rhs holds (so deleting rhs next to lhs is sound).
@@ -231,7 +231,7 @@ def _wf_list(ctx, st, sv, kind, depth=2):
     st.assume(z3.ForAll([i], z3.Implies(z3.And(0 <= i, i < ln(sv.term)), wf.wf(kind, at(sv.term, i), depth)), patterns=[at(sv.term, i)]))
 
 
-@unit("C08.remove_true_literals", "C08", "ngo.cleanup:CleanupTranslator.remove_true_literals")
+@unit("C08.remove_true_literals", "C08", "ngo.cleanup:CleanupTranslator.remove_true_literals", fallback={"mirror": "corpus", "trait": "cleanup"})
 def remove_true_literals(ctx):
     """the conjunction of the returned literals is equivalent to the conjunction of the given ones,
     and the result only contains given literals (#true is neutral, nothing else is dropped)"""
@@ -259,7 +259,7 @@ def remove_true_literals(ctx):
     no_raise(ctx, "no-raise", res)
 
 
-@unit("C08.contains_false", "C08", "ngo.cleanup:CleanupTranslator.contains_false")
+@unit("C08.contains_false", "C08", "ngo.cleanup:CleanupTranslator.contains_false", fallback={"mirror": "corpus", "trait": "cleanup"})
 def contains_false(ctx):
     """contains_false(lits) => the conjunction of lits is unsatisfiable (so dropping the statement / element is sound)"""
     bs = BoolSem(ctx)
@@ -275,3 +275,121 @@ def contains_false(ctx):
         t = ctx.ex.as_z3_bool(ctx.ex.truth(s, r))
         ctx.oblige(f"post#{n}", s, z3.Implies(t, z3.Not(_all_hold(bs, m, lits.term, env, I))), replay={"mirror": "contains_false"})
     no_raise(ctx, "no-raise", res)
+
+
+# ---------------------------------------------------------------------------------------------
+from pyvc.loops import LoopSpec  # noqa: E402
+
+
+@unit("C08.create_mappings", "C08", "ngo.cleanup:CleanupTranslator._create_mappings", fallback={"mirror": "corpus", "trait": "cleanup"})
+def create_mappings(ctx):
+    """every mapping yielded for a head symbol has a witness literal c among the given body literals: a predicate
+    literal with the mapping's sign/predicate, as many positions as c has arguments, and c.args[k] == head.args[var_map[k]]
+    for every k ('argument positions are respected'); positions are in range of the head's arity"""
+    m, ex = ctx.m, ctx.ex
+    wf = wf_of(ctx)
+    A = m.AST
+    st = ctx.state()
+    head = ctx.sym("head_symbol", "ast")
+    st.assume(wf.wf("Function", head.term, 1))
+    lits_ref, lits = ctx.sym_list(st, "body_lits", "ast")
+    _wf_list(ctx, st, lits, "literal", 3)
+    hargs = A.Function_arguments(head.term)
+    ln, at = m.lst_funcs("ast")
+    lnI, atI = m.lst_funcs("int")
+    key = ("ngo.cleanup:CleanupTranslator._create_mappings", 1)
+
+    def inv(c):
+        vm = c.term("var_map", ("list", "int"))
+        bargs = A.Function_arguments(c.term("body_symbol", "ast"))
+        i = z3.Int(f"i!cm{fresh_id()}")
+        kk = c.k
+        return z3.And(
+            lnI(vm) <= kk,
+            lnI(vm) >= 0,
+            z3.Implies(
+                lnI(vm) == kk,
+                z3.ForAll([i], z3.Implies(z3.And(0 <= i, i < kk), z3.And(0 <= atI(vm, i), atI(vm, i) < ln(hargs), at(hargs, atI(vm, i)) == at(bargs, i)))),
+            ),
+        )
+
+    ex.loop_specs[key] = LoopSpec(inv=inv, modifies={"var_map": ("list", "int")}, name="positions of body arguments in the head")
+    res = ctx.call(st, ctx.method("ngo.cleanup", "CleanupTranslator", "_create_mappings", None), [head, lits_ref])
+    ok, bad = returned(res)
+    ctx.cover("reach", st)
+    no_raise(ctx, "no-raise", res)
+    LM = ("list", MAPPING)
+    lnM, atM = m.lst_funcs(MAPPING)
+    j, c_i, k = z3.Int("j!cmq"), z3.Int("c!cmq"), z3.Int("k!cmq")
+    for n, (s, r) in enumerate(ok):
+        rt = ex.to_term(s, r, LM)
+        mp = atM(rt, j)
+        hp = m.rec_acc("Mapping", "head_pred")(mp)
+        bp = m.rec_acc("Mapping", "body_pred")(mp)
+        vm = m.rec_acc("Mapping", "var_map")(mp)
+        c = at(lits.term, c_i)
+        csym = A.SymbolicAtom_symbol(A.Literal_atom(c))
+        cargs = A.Function_arguments(csym)
+        witness = z3.Exists(
+            [c_i],
+            z3.And(
+                0 <= c_i,
+                c_i < ln(lits.term),
+                A.is_Literal(c),
+                A.is_SymbolicAtom(A.Literal_atom(c)),
+                A.is_Function(csym),
+                m.rec_acc("SignedPredicate", "sign")(bp) == A.Literal_sign(c),
+                m.rec_acc("SignedPredicate", "pred")(bp) == m.rec_ctor("Predicate")(A.Function_name(csym), ln(cargs)),
+                lnI(vm) == ln(cargs),
+                z3.ForAll([k], z3.Implies(z3.And(0 <= k, k < lnI(vm)), z3.And(0 <= atI(vm, k), atI(vm, k) < ln(hargs), at(cargs, k) == at(hargs, atI(vm, k))))),
+            ),
+        )
+        ctx.oblige(
+            f"post-witness#{n}",
+            s,
+            z3.ForAll([j], z3.Implies(z3.And(0 <= j, j < lnM(rt)), z3.And(hp == m.rec_ctor("Predicate")(A.Function_name(head.term), ln(hargs)), witness))),
+            replay={"mirror": "create_mappings"},
+        )
+    ctx.adopt_engine_obligations()
+
+
+@unit("C08.transitive_closure", "C08", "ngo.cleanup:CleanupTranslator.transitive_closure", fallback="transitive_closure")
+def transitive_closure(ctx):
+    """if every given mapping is well-formed and valid in an interpretation, so is every mapping of the closure
+    (composition only through positive literals, positions composed as lhs.var_map[rhs.var_map[k]]), and the closure
+    contains the given mappings"""
+    asem = AtomSem(ctx)
+    sem, m, ex = asem.sem, ctx.m, ctx.ex
+    st = ctx.state()
+    aref, alist, aset = ctx.sym_set_enum(st, "a", MAPPING)
+    I = z3.Const("I", sem.Interp)
+    st.assume(mappings_invariant(asem, alist, I))
+    SM = ("set", MAPPING)
+    mp = z3.Const("mp!tc", m.sort(MAPPING))
+
+    def all_good(set_term):
+        body = z3.Implies(z3.Select(set_term, mp), z3.And(wf_mapping(m, mp), valid_mapping(asem, mp, I)))
+        if z3.is_const(set_term):
+            return z3.ForAll([mp], body, patterns=[z3.Select(set_term, mp)])
+        return z3.ForAll([mp], body)
+
+    def subset(a_, b_):
+        y = z3.Const(f"y!ss{fresh_id()}", m.sort(MAPPING))
+        return z3.ForAll([y], z3.Implies(z3.Select(a_, y), z3.Select(b_, y)))
+
+    def inv(c):
+        cl = ex.to_term(c.st, c.var("closure"), SM)
+        return z3.And(all_good(cl), subset(aset.term, cl))
+
+    key = ("ngo.cleanup:CleanupTranslator.transitive_closure", 0)
+    ex.loop_specs[key] = LoopSpec(inv=inv, modifies={"closure": SM, "new_relations": SM, "closure_until_now": SM}, name="closure so far is valid")
+    res = ctx.call(st, ctx.method("ngo.cleanup", "CleanupTranslator", "transitive_closure", None), [aref])
+    ok, bad = returned(res)
+    ctx.cover("reach", st)
+    no_raise(ctx, "no-raise", res)
+    for n, (s, r) in enumerate(ok):
+        rt = ex.to_term(s, r, SM)
+        ctx.oblige(f"post-valid#{n}", s, all_good(rt), replay={"mirror": "transitive_closure"})
+        ctx.oblige(f"post-contains-input#{n}", s, subset(aset.term, rt), replay={"mirror": "transitive_closure"})
+    ctx.adopt_engine_obligations(source="property", replay={"mirror": "transitive_closure"})
+    ctx.assume_note("termination of transitive_closure's fixpoint loop is not proved")
